@@ -311,7 +311,10 @@ def build(term, ctx, path="r", batch=None):
             c = 2.0
             op = O.ConstantMulLinearOperator(a.op, c)
             return Built(op, a.dense * c, term, psd=a.psd, pd=a.pd)
-        cb = tuple(kw["cb"]) if "cb" in kw else a.dense.shape[:-2]
+        cb = kw.get("cb", None)
+        if cb == "ones":  # a constant that broadcasts through size-1 batch dimensions against the operator's batch shape
+            cb = tuple(1 for _ in a.dense.shape[:-2])
+        cb = tuple(cb) if cb is not None else a.dense.shape[:-2]
         c = leaf(ctx, path + ".c", {"pos": "pos", "neg": "pos", "mixed": "int"}[ck], (), cb)
         cc = -c if ck == "neg" else c
         if ck == "neg":
@@ -492,7 +495,7 @@ def catalogue(n=3, include_rect=True):
         "Matmul": ["Matmul", {}, D(n), D(n)], "MatmulPSD": ["Matmul", {}, D(n, 2), D(2, n)],
         "Mul": ["Mul", {}, P, ["Toeplitz", {"n": n}]],
         "ConstMul": ["ConstMul", {"c": "pos"}, D(n)], "ConstMulNeg": ["ConstMul", {"c": "neg"}, P],
-        "ConstMulPSD": ["ConstMul", {"c": "pos"}, P],
+        "ConstMulPSD": ["ConstMul", {"c": "pos"}, P], "ConstMulBcast": ["ConstMul", {"c": "pos", "cb": "ones"}, D(n)],
         "BlockDiag": ["BlockDiag", {"k": 2}, P], "BlockDiagGen": ["BlockDiag", {"k": 2}, D(n)],
         "BlockDiag3": ["BlockDiag", {"k": 3}, D(2, kind="psd")],
         "BlockInterleaved": ["BlockInterleaved", {"k": 2}, P], "BlockInterleaved3": ["BlockInterleaved", {"k": 3}, D(3, kind="psd")],
